@@ -434,6 +434,17 @@ fn cmd_openlocked(a: &[&str]) -> String {
     if let Some(n) = a.get(2).and_then(|x| x.parse::<usize>().ok()) {
         bytes.truncate(n);
     }
+    // optional fourth value: the state the daemon left the header in: "nogen" (layout version stamped, no publication yet: generation 0),
+    // "wiped" (version 0, generation 0), "oddgen" (died inside an update)
+    match a.get(3).copied() {
+        Some("nogen") => bytes[14..16].copy_from_slice(&0u16.to_ne_bytes()),
+        Some("wiped") => {
+            bytes[12..14].copy_from_slice(&0u16.to_ne_bytes());
+            bytes[14..16].copy_from_slice(&0u16.to_ne_bytes());
+        }
+        Some("oddgen") => bytes[14..16].copy_from_slice(&7u16.to_ne_bytes()),
+        _ => {}
+    }
     if std::fs::write(&path, &bytes).is_err() {
         return "io".into();
     }
@@ -771,6 +782,7 @@ fn main() {
             "abi3" => abi::cmd_abi3(&rest),
             "recreate" => seg::cmd_recreate(&rest),
             "open_race" => seg::cmd_open_race(&rest),
+            "stopstart" => seg::cmd_stopstart(&rest),
             "snapshot_stall" => seg::cmd_snapshot_stall(&rest),
             "seq_publish" => seg::cmd_seq_publish(&rest),
             "snapshot_stall_odd" => seg::cmd_snapshot_stall_odd(&rest),
